@@ -1023,6 +1023,10 @@ class C11:
                     tr, exc = run_traced(do_copy)
                     if isinstance(exc, SimStall):
                         raise exc
+                    if exc is not None and info.g_cyclic_trig:
+                        # KF-1: below a rebound label the tasks are mutually ordered; one of them ran on a transient value
+                        ex.count("stopped_on_kf1_exception")
+                        break
                     if exc is not None:
                         raise Violation(prop + ".copy_fails", "%s raised %s: %s" % (where, type(exc).__name__, str(exc)[:300]))
                     restarts += 1
